@@ -267,7 +267,9 @@ func (t *TCP) SerializeTo(b gopacket.SerializeBuffer, opts gopacket.SerializeOpt
 }
 
 func (t *TCP) ComputeChecksum() (uint16, error) {
-	csum, err := t.computeChecksum(append(t.Contents, t.Payload...), IPProtocolTCP)
+	// as in VerifyChecksum: force a copy instead of appending into the spare
+	// capacity of Contents, which is the packet data shared with other readers
+	csum, err := t.computeChecksum(append(t.Contents[:len(t.Contents):len(t.Contents)], t.Payload...), IPProtocolTCP)
 	if err != nil {
 		return 0, err
 	}
